@@ -59,10 +59,10 @@ private theorem runWith_callWriteData (wd : List Step) (dt : Option DT) (rest : 
   rcases runWith.runFlat wd { m with dt := dt, converted := false, shape := none } with ⟨m', _ | e⟩ <;> rfl
 
 /-- a pure validation: it may raise, it never changes the machine -/
-def IsCheck (s : Step) : Prop := s = .checkTypes ∨ s = .checkFlat
+def IsCheck (s : Step) : Prop := s = .checkTypes ∨ s = .checkFlat ∨ s = .checkFlatNonEmpty
 
 private theorem step_check (m : M) (s : Step) (hs : IsCheck s) : (step m s).1 = m := by
-  rcases hs with rfl | rfl <;> simp only [step] <;> split <;> rfl
+  rcases hs with rfl | rfl | rfl <;> simp only [step] <;> split <;> (try split) <;> rfl
 
 /-- validations in front of a step list: refused by one of them, or the list runs on the same machine -/
 private theorem runWith_checks (wd : List Step) (checks rest : List Step) (hc : ∀ s ∈ checks, IsCheck s) (m : M) :
@@ -80,37 +80,69 @@ private theorem runWith_checks (wd : List Step) (checks rest : List Step) (hc : 
       rw [hstep] at this
       exact this
     subst hm'
-    rcases hcc with rfl | rfl <;> cases oe <;> simp only [runWith, hstep]
+    rcases hcc with rfl | rfl | rfl <;> cases oe <;> simp only [runWith, hstep]
+    · exact ih'
+    · exact .inl ⟨_, rfl⟩
     · exact ih'
     · exact .inl ⟨_, rfl⟩
     · exact ih'
     · exact .inl ⟨_, rfl⟩
 
-/-- a setter of the shape `[wrapScalar]? ; if empty: delete-if-present else: <checks>; write_data(.., Double) ; touch` -/
-private theorem floatSetter_unchanged (wrap : Bool) (checks : List Step) (hc : ∀ s ∈ checks, IsCheck s)
+/-- the statements in front of the empty test — validations and the wrapping of a bare number — change nothing
+but the variable holding the value -/
+private theorem runWith_pre (wd : List Step) (pre : List Step) (hp : ∀ s ∈ pre, IsCheck s ∨ s = .wrapScalar) :
+    ∀ m : M, ∃ x', (runWith wd pre m).1 = { m with x := x' } := by
+  induction pre with
+  | nil => intro m; exact ⟨m.x, rfl⟩
+  | cons c cs ih =>
+    intro m
+    have ih' := ih (fun s hs => hp s (List.mem_cons_of_mem _ hs))
+    rcases hp c (List.mem_cons_self ..) with hc | rfl
+    · have hm := step_check m c hc
+      rcases hstep : step m c with ⟨m', oe⟩
+      have hm' : m' = m := by
+        have := hm
+        rw [hstep] at this
+        exact this
+      subst hm'
+      rcases hc with rfl | rfl | rfl <;> cases oe <;> simp only [runWith, hstep]
+      · exact ih' m'
+      · exact ⟨m'.x, rfl⟩
+      · exact ih' m'
+      · exact ⟨m'.x, rfl⟩
+      · exact ih' m'
+      · exact ⟨m'.x, rfl⟩
+    · cases hx : m.x with
+      | scalar e0 =>
+        obtain ⟨x', h'⟩ := ih' { m with x := .seq false [e0] }
+        exact ⟨x', by simp only [runWith, step, hx]; exact h'⟩
+      | none => obtain ⟨x', h'⟩ := ih' m; exact ⟨x', by simp only [runWith, step, hx]; exact h'⟩
+      | seq a es => obtain ⟨x', h'⟩ := ih' m; exact ⟨x', by simp only [runWith, step, hx]; exact h'⟩
+      | unsized e0 => obtain ⟨x', h'⟩ := ih' m; exact ⟨x', by simp only [runWith, step, hx]; exact h'⟩
+      | nested a r es => obtain ⟨x', h'⟩ := ih' m; exact ⟨x', by simp only [runWith, step, hx]; exact h'⟩
+
+/-- a setter of the shape `<validations / wrapScalar> ; if empty: delete-if-present else: <validations>;
+write_data(.., Double) ; touch` -/
+private theorem floatSetter_unchanged (pre : List Step) (hp : ∀ s ∈ pre, IsCheck s ∨ s = .wrapScalar)
+    (checks : List Step) (hc : ∀ s ∈ checks, IsCheck s)
     (f : File) (now : Nat) (x : Arg) (e : Nix.Err)
     (h : (runSetter writeDataSteps
-      { emptyTest := .lenZero, pre := if wrap then [.wrapScalar] else [], whenEmpty := [.deleteIfPresent],
+      { emptyTest := .lenZero, pre := pre, whenEmpty := [.deleteIfPresent],
         otherwise := checks ++ [.callWriteData (some .double)], post := [.touch] } f now x).2 = some e) :
     (runSetter writeDataSteps
-      { emptyTest := .lenZero, pre := if wrap then [.wrapScalar] else [], whenEmpty := [.deleteIfPresent],
+      { emptyTest := .lenZero, pre := pre, whenEmpty := [.deleteIfPresent],
         otherwise := checks ++ [.callWriteData (some .double)], post := [.touch] } f now x).1 = f := by
   revert h
   unfold runSetter
-  -- the machine after `pre`
-  have hpre : ∃ x', runWith writeDataSteps (if wrap then [Step.wrapScalar] else []) { x := x, now := now, file := f } =
-      ({ x := x', now := now, file := f }, none) := by
-    cases wrap with
-    | false => exact ⟨x, by simp [runWith]⟩
-    | true =>
-      cases x with
-      | scalar e0 => exact ⟨.seq false [e0], by simp [runWith, step]⟩
-      | none => exact ⟨.none, by simp [runWith, step]⟩
-      | seq a es => exact ⟨.seq a es, by simp [runWith, step]⟩
-      | unsized e0 => exact ⟨.unsized e0, by simp [runWith, step]⟩
-      | nested a r es => exact ⟨.nested a r es, by simp [runWith, step]⟩
-  obtain ⟨x', hx'⟩ := hpre
-  simp only [hx']
+  obtain ⟨x', hx'⟩ := runWith_pre writeDataSteps pre hp { x := x, now := now, file := f }
+  rcases hrun0 : runWith writeDataSteps pre { x := x, now := now, file := f } with ⟨m1, r1⟩
+  rw [hrun0] at hx'
+  simp only at hx'
+  subst hx'
+  cases r1 with
+  | some e1 => simp
+  | none =>
+  simp only
   cases hemp : isEmpty? .lenZero x' with
   | none => simp
   | some b =>
@@ -144,9 +176,9 @@ theorem float_setters_refused_unchanged (nm : String) (s : Setter) (hs : (nm, s)
     (runSetter writeDataSteps s f now x).1 = f := by
   simp only [floatSetters, List.mem_cons, Prod.mk.injEq, List.mem_nil_iff, or_false] at hs
   rcases hs with ⟨_, rfl⟩ | ⟨_, rfl⟩ | ⟨_, rfl⟩
-  · exact floatSetter_unchanged true [] (by simp) f now x e h
-  · exact floatSetter_unchanged true [] (by simp) f now x e h
-  · exact floatSetter_unchanged false [.checkFlat] (by simp [IsCheck]) f now x e h
+  · exact floatSetter_unchanged [.wrapScalar] (by simp) [] (by simp) f now x e h
+  · exact floatSetter_unchanged [.wrapScalar] (by simp) [] (by simp) f now x e h
+  · exact floatSetter_unchanged [.checkFlatNonEmpty] (by simp [IsCheck]) [] (by simp) f now x e h
 
 private theorem valuesTail_unchanged (wd : List Step) (m : M) (e : Nix.Err)
     (h : (runWith wd [.convertIf [], .takeShape, .resizeOrCreate, .write, .touch] m).2 = some e) :
